@@ -19,6 +19,12 @@ claimed={
         "Generate's OutputPath = <dir>/<prefix>wire_gen.go is not part of this check; os.Exit / subcommands dispatch / flag parsing are outside; a result with both Errs and Content (format.Source failure) is written and reported as failure (the statement's 'analysis fails' is read as: no Content). lib.spec lists the writing functions (ioutil.WriteFile); library functions without an entry are assumed not to write."),
  "C18":("The wire-side conditions: load always passes -tags=wireinject (plus the user's tags), LoadAllSyntax, the caller's dir and env; frame puts the generated-code marker, the go:generate line and `//+build !wireinject` before the package clause of every non-empty output; Commit is a single whole-file WriteFile of Content and writes nothing for empty content.",
         "The crux is assumed, not proved: the loader, given these flags, ignores every file constrained by !wireinject whatever it contains; determinism of the output for fixed loader results is C16 (not yet claimed)."),
+ "C02":("solve is proved (for every provider set satisfying the map invariants exported by buildProviderMap) to return a plan in which every argument slot of every call is in range and refers to an EARLIER slot, the slot's type is the concrete type the set designates for the parameter's type (injector parameter or result of an earlier call), every call's result type is recorded at the call's own slot and no two calls produce identical types (each provider at most once), and interface bindings reuse the concrete's slot without a new call. The emitters print slot names by index (C01/C03/C04 contracts).",
+        "Not proved and listed as not claimed: that the entry under a binding's interface key is canonical for its concrete type (canon), that the last call produces the injector's result type (needs the acyclicity rank), and that a plan without calls returns one of the injector's own parameters. The run-time meaning of the emitted statements is Go semantics (assumed)."),
+ "C06":("solve is proved to give a slot only to types that have an entry in the set's provider map (lookup by type identity only: no zero value, no implementing type, no pointer/value counterpart can be substituted because there is no other way into the index), to return no calls whenever an error was recorded, to require a source for every input of every call, and to give up on a type (abort marker) only if the type itself has no source or after ALL of its dependencies were visited, so no missing type below it is skipped.",
+        "That the recorded diagnostic's TEXT names the missing type is not modelled (error values are opaque); the induction from 'all dependencies visited' to 'every reachable missing type reported' is a meta-argument over the proved invariant."),
+ "C07":("verifyAcyclic is proved to start a search at every key of the provider map (all roots, used by an injector or not), to keep every trail a non-empty sequence of provided types whose inner elements have dependencies, never to crash on its map lookups, and to touch nothing but its own fresh maps. Completeness of the cycle search and termination are NOT proved: they are covered by a labelled bounded stand-in (the real function on every provider graph with at most 4 nodes, plus a seeded sample of larger graphs in the thorough tier).",
+        "Bounded part (never counted as proved): cycle-detection completeness and termination need a white-path argument over all paths, which is not a first-order inductive invariant this engine can carry. Path-count independence (visit-once) is only observed through the bounded runs finishing. Soundness of reported cycles (every reported cycle is a real closed walk) was attempted and dropped for solver cost."),
 }
 reason_pending="contracts for this property are not yet discharged on the unchanged tree (work in progress); no check is registered until its obligations verify"
 man={"version":1,
